@@ -44,10 +44,14 @@ multisec_regex = re.compile(
         # groups 'through' and 'and' for those words or equivalent symbols.
         ({intervener_regex.pattern})+   # IMPORTANT: Allow more than one intervener
                                         # to keep matching multisec to the right!
+        \s*                             # (Whitespace after the last intervener.)
 
-        ({no_num_sec_regex.pattern}     # The word or abbreviation "Section" (optional)
-        (?P<plural_rightmost>s)?)?
-        \s*
+        (?:
+            ({no_num_sec_regex.pattern}     # The word or abbreviation "Section" (optional)
+            (?P<plural_rightmost>s)?)
+            \s*    # (Whitespace only after the word "Section". See the note
+                   # at `intervener_regex` about adjacent whitespace.)
+        )?
         (?P<secnum_rightmost>\d{{1,3}})  # Rightmost section number (1 to 3 digits)
     )*   # Will go to here for multi-sections
     (?P<colon>\s*:)?    # Capture an optional colon at end.
